@@ -423,7 +423,7 @@ struct QExpression {
                     Value.Number.Real = -Value.Number.Real;
                 }
 
-                if ((Value.Number.Real < 1.0) && (Value.Number.Real > 0.0)) {
+                if (double(SizeT64I(Value.Number.Real)) != Value.Number.Real) {
                     // No power of fraction at the moment.
                     Value.Number.Natural = SizeT64{0};
                     Type                 = ExpressionType::NotANumber;
@@ -465,7 +465,7 @@ struct QExpression {
                     right_real = -right_real;
                 }
 
-                if ((right_real < 1.0) && (right_real > 0.0)) {
+                if (double(SizeT64I(right_real)) != right_real) {
                     // No power of fraction at the moment.
                     Value.Number.Natural = SizeT64{0};
                     Type                 = ExpressionType::NotANumber;
